@@ -36,7 +36,7 @@ ASSUMPTIONS = [
   'the raw result of FrozenDict.tree_flatten_with_keys (an internal pytree-protocol method) is not mutated; flattening goes through jax.tree_util',
   'hash checks only where every leaf is hashable',
 ]
-PROBES = ['mutation_of_source_after_freeze', 'mutation_of_unfreeze_result', 'mutation_of_copy_argument', 'hash_checked', 'order_variant', 'pickle_roundtrip', 'struct_runs', 'retrace_on_static_change', 'cache_hit_on_dynamic_change', 'nested_frozen_in_source', 'struct_shared_metadata']
+PROBES = ['mutation_of_source_after_freeze', 'mutation_of_unfreeze_result', 'mutation_of_copy_argument', 'hash_checked', 'order_variant', 'pickle_roundtrip', 'struct_runs', 'retrace_on_static_change', 'cache_hit_on_dynamic_change', 'nested_frozen_in_source', 'struct_shared_metadata', 'hash_unhashable_raises']
 
 
 def setup_worker(w, tier):
@@ -112,8 +112,10 @@ def generate(rs, tier):
       ops.append(dict(op='pickle', fd=a))
     elif r < 0.75:
       ops.append(dict(op='pytree', fd=a, how=g.choice(['flatten', 'tree_map', 'leaves_order', 'with_path'])))
-    elif r < 0.81:
+    elif r < 0.79:
       ops.append(dict(op='order', fd=a, seed=b))
+    elif r < 0.81:
+      ops.append(dict(op='hash_attempt', fd=a, times=g.choice([2, 3])))
     elif r < 0.87:
       ops.append(dict(op='api_mutate', fd=a, how=g.choice(['setitem', 'delitem', 'setattr', 'update', 'inner_setitem', 'clear'])))
     else:
@@ -396,6 +398,28 @@ class FWorld:
         if not (alt == fd) or hash(alt) != hash(fd):
           raise Violation('order-dependent-equality', f'op {oi}: equal contents in another insertion order compare or hash differently')
       self.track(alt, 'order-variant')
+      self.api_ops += 1
+    elif k == 'hash_attempt':
+      # hashing is all-or-nothing and repeatable: with an unhashable leaf EVERY attempt raises TypeError,
+      # otherwise every attempt returns the same number (a failed attempt must leave nothing behind)
+      fd = self.pick_fd(op['fd'])
+      outcomes = []
+      for _ in range(op['times']):
+        try:
+          outcomes.append(('ok', hash(fd)))
+        except TypeError:
+          outcomes.append(('TypeError',))
+      if len(set(outcomes)) != 1:
+        raise Violation('hash-changed', f'op {oi}: repeated hash() of one FrozenDict gave {outcomes}')
+      twin = FrozenDict(_plain_tree(fd))
+      try:
+        ht = ('ok', hash(twin))
+      except TypeError:
+        ht = ('TypeError',)
+      if ht != outcomes[0]:
+        raise Violation('order-dependent-equality', f'op {oi}: an equal FrozenDict hashes differently ({ht} vs {outcomes[0]})')
+      if outcomes[0][0] == 'TypeError':
+        res.probe('hash_unhashable_raises')
       self.api_ops += 1
     elif k == 'api_mutate':
       fd = self.pick_fd(op['fd'])
